@@ -48,6 +48,14 @@ def plan(tier, seed):
                 for tail in [' [b]', ' [0,1)', '\n[x', '\t]y', ' [b]{c}', ' ', '\n', '\t \n']:
                     bi += 1
                     units.append(dict(hfile='attach.py', fname='c09', args=(ci, nb, nc, (0,) * (nb + nc), bi, tail, 1)))
+    # a command without brace arguments followed only by blanks up to the true end of input
+    for nb, nc in [(0, 0), (1, 0), (2, 0)]:
+        for tail in [' ', '\n', '\t \n', ' \t']:
+            for nm in (1, -1):
+                bi += 1
+                units.append(dict(hfile='attach.py', fname='c09', args=(0, nb, nc, (0,) * (nb + nc), bi, tail, nm)))
+                if nb:
+                    units.append(dict(hfile='attach.py', fname='c09', args=(0, nb, nc, (1,) + (0,) * (nb - 1), bi, tail, nm)))
     for ci in ctxs:
         if ci == 6:
             continue
